@@ -667,6 +667,14 @@ def compare_terms(ck, terms, meta, label):
             mv = ck.coq_show(HDR, show)[:1500]
         except Exception as e:  # noqa
             mv = "(model value unavailable: %s)" % e
+        if (g is not None and g.get("extra_xyz") and not c["strict"]
+                and kind in ("nipy2nifti", "roundtrip", "idem")):
+            # non-strict mode with a non-spatial axis that carries a spatial name ('x'/'y'/'z' twice): the property requires
+            # nothing here (expected() = open) and the model is not claimed to follow the implementation's choice between
+            # the two candidate axes (it refuses with EReorder where nipy may accept or refuse with another error)
+            ck.cov["model_not_compared_duplicate_spatial_name_nonstrict"] = \
+                ck.cov.get("model_not_compared_duplicate_spatial_name_nonstrict", 0) + 1
+            continue
         rep = describe(g, c) if g is not None else dict(c)
         rep["model"] = mv
         rep["impl_error"] = ERRNAME.get(code, code) if code is not None else None
@@ -938,6 +946,8 @@ def section_files(ck, impl):
                      stale=stale_header(rng) if rng.random() < 0.5 else None)
         if expressible(g, c) != "yes":
             continue
+        if g.get("extra_xyz"):
+            continue      # save_image converts in NON-strict mode, where a second axis named 'x'/'y'/'z' is outside what the property requires
         done += 1
         for ext in exts:
             for dt in ([dtypes[(done + exts.index(ext)) % 5]] if not ck.thorough() else dtypes):
